@@ -205,7 +205,14 @@ def gen_entry(rng, maxn, jmax):
     if rng.random() < 0.06:
         modes[rng.randrange(n)] = rng.choice([0, -1, -7])
     args = rng.choice(['none'] * 6 + ['theta', 'rho', 'both', 'both'])
-    return {'op': 'entry', 'mask': m, 'modes': modes, 'normalize': rng.random() < 0.6, 'args': args, 'via': via}
+    # how the Noll indices are carried: python ints or a small / wide integer dtype (array, or numpy scalar)
+    mdtype = rng.choice(['list', 'list', 'uint8', 'uint8', 'int8', 'uint16', 'int16', 'int32', 'int64', 'uint32', 'uint64'])
+    if mdtype != 'list':
+        if rng.random() < 0.7:      # indices whose 8*j does not fit the small dtypes
+            modes = [rng.randint(32, jmax) for _ in modes]
+        if mdtype.startswith('u'):
+            modes = [max(j, 0) for j in modes]
+    return {'op': 'entry', 'mask': m, 'modes': modes, 'normalize': rng.random() < 0.6, 'args': args, 'via': via, 'mdtype': mdtype}
 
 
 def gen_shift(rng, maxn):
@@ -282,8 +289,12 @@ def gen_history(rng, maxn):
     if dtype in ('float64', 'float32') and rng.random() < 0.5:
         for st in steps:                             # the buffer holds weight * support: same support
             st['weight'] = rng.choice([1, 1e-10, -3e-12, 1e-30] + ([1e-300] if dtype == 'float64' else []))
-    return {'op': 'history', 'dtype': dtype, 'fills': fills, 'modes': modes, 'steps': steps,
-            'opd': [rng.randint(-3, 3) for _ in range(4)]}
+    out = {'op': 'history', 'dtype': dtype, 'fills': fills, 'modes': modes, 'steps': steps,
+           'opd': [rng.randint(-3, 3) for _ in range(4)]}
+    t = rng.random()
+    if t < 0.3:
+        out['errstate'] = 'raise' if t < 0.2 else 'ignore'      # the caller's np.errstate(divide/invalid/over=...)
+    return out
 
 
 def gen_seq(rng, jmax):
@@ -346,7 +357,7 @@ def generate(rng, tier):
     for _ in range(30 if quick else 300):
         yield gen_shift(rng, 6 if quick else 8)
     for _ in range(70 if quick else 700):
-        yield gen_entry(rng, 6 if quick else 8, 36 if quick else 66)
+        yield gen_entry(rng, 6 if quick else 8, 66 if quick else 120)
     # (5) call histories: one mask buffer refilled in place between zernike_basis / zernike_fit calls
     prev = None
     for k in range(45 if quick else 400):
@@ -617,10 +628,14 @@ def run_impl(c):
                 kw['rho'] = np.full(mask.shape, 0.5)
             if c['args'] in ('theta', 'both'):
                 kw['theta'] = np.full(mask.shape, 0.3)
+            mdt = c.get('mdtype', 'list')
             if c['via'] == 'zernike':
-                out = lentil.zernike(mask, c['modes'][0], normalize=c['normalize'], **kw)
+                idx = c['modes'][0] if mdt == 'list' else np.dtype(mdt).type(c['modes'][0])
+                out = lentil.zernike(mask, idx, normalize=c['normalize'], **kw)
             else:
                 modes = c['modes'][0] if c['via'].startswith('basis_scalar') else list(c['modes'])
+                if mdt != 'list':
+                    modes = np.dtype(mdt).type(modes) if c['via'].startswith('basis_scalar') else np.array(modes, dtype=mdt)
                 out = lentil.zernike_basis(mask, modes, vectorize=c['via'].endswith('_vec'), normalize=c['normalize'], **kw)
             out = np.asarray(out, dtype=float)
             return {'shape': list(out.shape), 'rows': out.reshape((len(c['modes']), -1)).tolist()}
@@ -688,6 +703,37 @@ def coords_variants(lentil, mask, j, res):
                 del a
             except Exception as e:
                 out[name] = {'err': type(e).__name__}
+    # the caller edits what it received in place; the next identical call must not see it
+    try:
+        e0 = np.geterr()
+        r1, t1 = lentil.zernike_coordinates(mask)
+        z1 = lentil.zernike(mask, j)
+        for a in (r1, t1, z1):
+            try:
+                np.asarray(a)[...] = -7
+            except (ValueError, TypeError):
+                pass
+        r2, t2 = lentil.zernike_coordinates(mask)
+        z2 = np.asarray(lentil.zernike(mask, j), dtype=float)
+        out['a repeated call after the caller overwrote the previous results in place'] = {
+            'coords_dev': float(max(np.max(np.abs(np.asarray(r2, dtype=float) - rho0)), np.max(np.abs(np.asarray(t2, dtype=float) - th0)))),
+            'mode_dev': float(np.max(np.abs(z2 - zj0))), 'changed': np.geterr() != e0}
+    except Exception as e:
+        out['a repeated call after the caller overwrote the previous results in place'] = {'err': type(e).__name__}
+    # the caller's numpy error state must not matter
+    for es in ('raise', 'ignore'):
+        name = f'inside np.errstate(divide/invalid/over={es!r})'
+        try:
+            with np.errstate(divide=es, invalid=es, over=es):
+                e1 = np.geterr()
+                r3, t3 = lentil.zernike_coordinates(mask)
+                z3 = np.asarray(lentil.zernike(mask, j), dtype=float)
+                ch = np.geterr() != e1
+            out[name] = {'coords_dev': float(max(np.max(np.abs(np.asarray(r3, dtype=float) - rho0)),
+                                                 np.max(np.abs(np.asarray(t3, dtype=float) - th0)))),
+                         'mode_dev': float(np.max(np.abs(z3 - zj0))), 'changed': bool(ch)}
+        except Exception as e:
+            out[name] = {'err': type(e).__name__}
     # truthy-but-not-True flags
     for name, flag, ref in (('normalize=np.True_', np.True_, zj0), ('normalize=1', 1, zj0),
                             ('normalize=np.False_', np.False_, raw0), ('normalize=0', 0, raw0)):
@@ -753,24 +799,61 @@ def run_history(lentil, c):
     modes = list(c['modes'])
     opd = opd_of(c, shape)
     steps = []
-    for st in c['steps']:
-        f = fills[st['fill']]
-        buf[...] = (f != 0) if c['dtype'] == 'bool' else (f * st.get('weight', 1)).astype(c['dtype'])
-        snap = buf.copy()
-        rec = {}
-        try:
-            if 'basis' in st['call']:
-                B = lentil.zernike_basis(buf, modes, vectorize=st['vectorize'], normalize=st['normalize'])
-                rec['basis'] = np.asarray(B, dtype=float).reshape((len(modes),) + shape).tolist()
-            if 'fit' in st['call']:
-                rec['fit'] = np.asarray(lentil.zernike_fit(opd * (snap != 0), buf, modes, normalize=st['normalize']),
-                                        dtype=float).tolist()
-            if st['call'] == 'remove':
-                rec['remove'] = np.asarray(lentil.zernike_remove(opd * (snap != 0), buf, modes), dtype=float).tolist()
-        except Exception as e:
-            rec['err'] = type(e).__name__
-        rec['buffer_changed'] = not np.array_equal(buf, snap)
-        steps.append(rec)
+    held = []            # (step, what, the array object the caller received, its content when it was returned)
+    err_before = np.geterr()
+    import contextlib
+    es = c.get('errstate')
+    ctx = np.errstate(divide=es, invalid=es, over=es) if es else contextlib.nullcontext()
+    with ctx:
+        err_in = np.geterr()
+        for k, st in enumerate(c['steps']):
+            f = fills[st['fill']]
+            buf[...] = (f != 0) if c['dtype'] == 'bool' else (f * st.get('weight', 1)).astype(c['dtype'])
+            snap = buf.copy()
+            rec = {}
+            try:
+                if 'basis' in st['call']:
+                    B = lentil.zernike_basis(buf, modes, vectorize=st['vectorize'], normalize=st['normalize'])
+                    rec['basis'] = np.asarray(B, dtype=float).reshape((len(modes),) + shape).tolist()
+                    held.append((k, 'zernike_basis', B, np.array(B, dtype=float, copy=True)))
+                if 'fit' in st['call']:
+                    F = lentil.zernike_fit(opd * (snap != 0), buf, modes, normalize=st['normalize'])
+                    rec['fit'] = np.asarray(F, dtype=float).tolist()
+                    held.append((k, 'zernike_fit', F, np.array(F, dtype=float, copy=True)))
+                if st['call'] == 'remove':
+                    Rm = lentil.zernike_remove(opd * (snap != 0), buf, modes)
+                    rec['remove'] = np.asarray(Rm, dtype=float).tolist()
+                    held.append((k, 'zernike_remove', Rm, np.array(Rm, dtype=float, copy=True)))
+            except Exception as e:
+                rec['err'] = type(e).__name__
+            rec['buffer_changed'] = not np.array_equal(buf, snap)
+            if np.geterr() != err_in:
+                rec['errstate_changed'] = True
+            steps.append(rec)
+        # every result the caller still holds must be what it was when it was returned
+        for k, what, live, then in held:
+            a = np.asarray(live, dtype=float)
+            if a.shape != then.shape or not np.array_equal(a, then, equal_nan=True):
+                steps[k]['held_changed'] = [what, float(np.nanmax(np.abs(a - then))) if a.shape == then.shape else -1.0]
+        # the caller may do what it likes with its results: overwrite them all, then repeat the last basis call
+        last = [(k, then) for k, what, live, then in held if what == 'zernike_basis']
+        if last:
+            for k, what, live, then in held:
+                try:
+                    np.asarray(live)[...] = 1e300
+                except (ValueError, TypeError):
+                    pass
+            k, then = last[-1]
+            st = c['steps'][k]
+            f = fills[st['fill']]
+            buf[...] = (f != 0) if c['dtype'] == 'bool' else (f * st.get('weight', 1)).astype(c['dtype'])
+            try:
+                B2 = np.asarray(lentil.zernike_basis(buf, modes, vectorize=st['vectorize'], normalize=st['normalize']), dtype=float)
+                steps[k]['after_scribble_dev'] = float(np.max(np.abs(B2 - then))) if B2.shape == then.shape else -1.0
+            except Exception as e:
+                steps[k]['after_scribble_dev'] = -2.0
+    if np.geterr() != err_before:
+        steps[-1]['errstate_changed'] = True
     # references: the single-mode entry point and the same calls on fresh arrays, after the history
     for st, rec in zip(c['steps'], steps):
         f = fills[st['fill']]
@@ -1164,7 +1247,7 @@ def oracle(c, impl):
         h = {'op': 'history', 'dtype': 'float64', 'fills': [sup], 'modes': c['modes'],
              'steps': [{'fill': 0, 'normalize': c['normalize'], 'vectorize': False, 'call': 'basis'}]}
         msg = oracle_history(h, {'steps': [{'basis': rows, 'ref_modes': rows}]})
-        return (f'{c["via"]} with default coordinates: ' + msg) if msg else None
+        return (f'{c["via"]} with default coordinates, Noll indices carried as {c.get("mdtype", "list")}: ' + msg) if msg else None
     if c['op'] == 'coords_large':
         if 'err' in impl:
             return f'zernike_coordinates / zernike raised {impl["err"]} on a {c["shape"]} {c["dtype"]} mask'
@@ -1216,6 +1299,15 @@ def oracle_history(c, impl):
             return f'{where}: raised {rec.get("err") or rec.get("ref_err")}'
         if rec.get('buffer_changed'):
             return f'{where}: the caller\'s mask buffer was modified'
+        if rec.get('errstate_changed'):
+            return f'{where}: the caller\'s numpy error state (np.geterr()) was changed by the library'
+        if 'held_changed' in rec:
+            what, dev = rec['held_changed']
+            return (f'{where}: the {what} result returned at this step and still held by the caller was overwritten by the later '
+                    f'calls of the history (max change {dev!r}): it is no longer the modes / fit of its own mask')
+        if 'after_scribble_dev' in rec and not (0 <= rec['after_scribble_dev'] <= 1e-12):
+            return (f'{where}: after the caller overwrote the arrays it had received, repeating this zernike_basis call gives a '
+                    f'different result (max change {rec["after_scribble_dev"]!r}): results share memory with library state')
         sup = np.asarray(c['fills'][st['fill']]) != 0
         r, cc_ = sup.shape
         npix = int(sup.sum())
@@ -1280,6 +1372,23 @@ def oracle_seq(c, impl):
         if not np.all(np.abs(got - exp) <= 1e-9 * (1 + np.abs(exp)) * max(1, len(c['coeffs']))):
             return 'zernike_compose on caller-supplied coordinates is not the coefficient-weighted sum of the modes 1..k'
     return None
+
+
+def known_match(f, c, impl):
+    if f['id'] == 'C11-uint64-index':
+        return c.get('op') == 'entry' and c.get('mdtype') == 'uint64' and impl.get('err') == 'TypeError'
+    return False
+
+
+def replay_known(f):
+    if f['id'] == 'C11-uint64-index':
+        Z = zmod()
+        try:
+            Z.zernike_index(np.uint64(2))
+        except TypeError:
+            return True
+        return False
+    return False
 
 
 # ------------------------------------------------------------------ numeric tests (labelled as tests)
